@@ -19,9 +19,14 @@ fn main() {
         if a[da] == 0.0 { a[da] = 1.0; } if b[db] == 0.0 { b[db] = -1.5; }
         let pa: Polynomial<f64> = Polynomial::from_slice(&a.iter().rev().cloned().collect::<Vec<_>>()); let pb: Polynomial<f64> = Polynomial::from_slice(&b.iter().rev().cloned().collect::<Vec<_>>());
         let want = conv(&a, &b);
+        // rounding bound proportional to machine epsilon x |a|_1 |b|_1 (the exact FFT stays below 1e-15 of it)
+        let scale = if trial % 2 == 0 { 1.0 } else { 37.0 };
+        let (pa, pb, want) = if scale == 1.0 { (pa, pb, want) } else { (&pa * scale, &pb * scale, want.iter().map(|w| w * scale * scale).collect::<Vec<_>>()) };
         let got = &pa * &pb; let got2 = &pb * &pa;
+        let n1: f64 = a.iter().map(|x| (x * scale).abs()).sum::<f64>() * b.iter().map(|x| (x * scale).abs()).sum::<f64>();
+        if got.order() != da + db { found.push(format!("real product deg {da} x {db}: the product has order {}", got.order())); }
         for k in 0..want.len() {
-            if (got.get_coefficient(k) - want[k]).abs() > 1e-9 * (1.0 + want[k].abs()) { found.push(format!("real product deg {da} x {db}: coefficient {k} is {} instead of {}", got.get_coefficient(k), want[k])); break; }
+            if (got.get_coefficient(k) - want[k]).abs() > 2e-13 * (1.0 + n1) { found.push(format!("real product deg {da} x {db}: coefficient {k} is {} instead of {} (error {:e}, |a|_1|b|_1 = {n1})", got.get_coefficient(k), want[k], (got.get_coefficient(k) - want[k]).abs())); break; }
             if (got2.get_coefficient(k) - got.get_coefficient(k)).abs() > 1e-9 { found.push(format!("real product deg {da} x {db} not commutative at coefficient {k}")); break; }
         }
         if trial % 3 == 0 {
